@@ -22,7 +22,7 @@ from families import common
 
 SOURCES = ["drv_linsys.c", "vt.c", "vt_alloc.c"]
 CONV = ("ztoy", "ytoz", "stoz", "ztos", "stoy", "ytos")
-SCALABLE = ("ztoy", "ytoz", "ztos", "ytos")
+SCALABLE = ("ztoy", "ytoz", "ztos")
 
 
 def mc(ctx, tier):
@@ -152,10 +152,9 @@ def compose(tbl, tier, seed):
     s2 = tbl["small"][1]
     for i, pt in enumerate(s2["pats"]):
         for perm in s2["perms"]:
-            for scale in ((), s2["scales"][(i * 5 + 1) % 9],
-                          s2["scales"][(i * 5 + 3) % 9]):
-                lines.append(_line("abadd", "-", 2, 0, perm, scale, (),
-                                   pt["p"]))
+            for rep in range(3):
+                lines.append(_line("abadd", "-", 2, 10 if rep == 2 else 0,
+                                   perm, (), (), pt["p"]))
     lines.append(_line("abadd", "-", 2, 0, (), (), (1, 1), ()))
     # --- tall systems: one-port solves (only realisable zero-column sets)
     t = 0
@@ -165,8 +164,8 @@ def compose(tbl, tier, seed):
         ntypes = 2 if quick else 6
         for j in range(ntypes):
             typ = (t + j * 3 + j // 2) % 6
-            lines.append(_line("tall", str(typ), 1 if tc["zero"] else 0,
-                               tc["m"], (), (), tc["rowmap"], ()))
+            lines.append(_line("tall", str(typ), 3, tc["m"], (),
+                               (1 if tc["zero"] else 0,), tc["rowmap"], ()))
         t += 1
     # --- apply_m with badly scaled receivers
     for p in range(1, 5):
@@ -185,6 +184,9 @@ def compose(tbl, tier, seed):
         for v in vecs:
             for typ in (0, 1):
                 lines.append(_line("applym", str(typ), p, 0, (), v, (), ()))
+                if p <= 3:
+                    lines.append(_line("applym", str(typ), p, 1, (), v, (),
+                                       ()))
     return lines
 
 
@@ -233,8 +235,8 @@ def _argclass(ev):
                                        len(set(rm)), ev.get("zero"))
     if e == "ApplyM":
         sc = ev.get("sc", [])
-        return "%s:p%s:%s" % (ev.get("type"), ev.get("p"),
-                              "scaled" if any(sc) else "unscaled")
+        return "%s:p%s:%s:%s" % (ev.get("type"), ev.get("p"), ev.get("det"),
+                                 "scaled" if any(sc) else "unscaled")
     return "-"
 
 
@@ -311,6 +313,12 @@ def _tally(path, stats):
             stats["by_kind"][k] = stats["by_kind"].get(k, 0) + 1
             if ev.get("qual") == 0:
                 stats["unqualified"] = stats.get("unqualified", 0) + 1
+            if (k == "ApplyM" and ev.get("det") == "over" and
+                    any(ev.get("sc", [])) and ev.get("setup") == 1):
+                stats["over_scaled"] = stats.get("over_scaled", 0) + 1
+                if ev.get("res") != 1:
+                    stats["over_scaled_inaccurate"] = \
+                        stats.get("over_scaled_inaccurate", 0) + 1
 
 
 def run(ctx, exe, tier, seed, tbl=None, lines=None):
